@@ -422,11 +422,50 @@ theorem updateChunkInfo_ok (st : CiState) (root overlay bv : Bytes) (h : CiWF st
     simp only at h1
     subst h1
     simp only [deref, bind, Except.bind, pure, Except.pure]
-    split
-    · rename_i nv hs
-      obtain ⟨g1, g2⟩ := bvSetBytes_some hs
+    rcases bvSetBytes_ok cur bv with ⟨_, e⟩ | ⟨_, nv, e, g1, g2⟩
+    · rw [e]
+      exact ⟨_, rfl, h, rfl, rfl, rfl⟩
+    · rw [e]
       refine ⟨_, rfl, discSet_wf h ⟨nv, n, rfl, h2, h3, by rw [g1]; exact h4, by rw [g2]; exact h5⟩, rfl, rfl, rfl⟩
-    · exact ⟨_, rfl, h, rfl, rfl, rfl⟩
+
+/-- The stored-vector branch of `updateChunkInfo`, one clause per length relation: a second
+    `ChunkInfoResp` for a `(rootCid, overlay)` whose vector is already stored is merged by
+    `SetBytes`, which rejects every length other than the stored one — **shorter, longer (by one byte
+    or by many) and empty** presence bytes leave the state exactly as it was (the error is only
+    logged) — and for the **equal** length runs the bit loop inside both slices and stores a vector
+    with the same `len` and the same number of bytes.  No case panics (no hypothesis on the state
+    beyond "the stored pointer is not nil", which `CiWF` gives). -/
+theorem C37_updateChunkInfo_stored (st : CiState) (root overlay bv : Bytes) (cur : BV)
+    (hl : st.disc.lookup (root, overlay) = some (some cur)) :
+    (bv.length ≠ cur.b.length → updateChunkInfo st root overlay bv = .ok st) ∧
+    (bv.length = cur.b.length → ∃ n, updateChunkInfo st root overlay bv = .ok (discSet st (root, overlay) (some n)) ∧
+      n.len = cur.len ∧ n.b.length = cur.b.length) := by
+  unfold updateChunkInfo
+  simp only [hl, deref, bind, Except.bind, pure, Except.pure]
+  rcases bvSetBytes_ok cur bv with ⟨hne, e⟩ | ⟨heq, nv, e, g1, g2⟩
+  · rw [e]
+    exact ⟨fun _ => rfl, fun h => absurd h hne⟩
+  · rw [e]
+    exact ⟨fun h => absurd heq h, fun _ => ⟨nv, rfl, g1, g2⟩⟩
+
+/-- the length check of `SetBytes` is what keeps the merge inside the slices: its bit loop, run without
+    the check on presence bytes SHORTER than the stored ones, indexes past the argument … -/
+theorem C37_setBytesLoop_unchecked_counterexample :
+    bvSetLoop [1] (2 * 8) 0 ⟨9, [255, 1]⟩ = .error .outOfRange := by rfl
+
+/-- `for i := range bv { known[i] |= bv[i] }` — a byte-wise merge over the ARGUMENT's length, without
+    the length check (not the code that exists: the shape of a plausible "optimisation" of `SetBytes`) -/
+def bvOrLoopUnchecked : Bytes → Nat → BV → M BV
+  | [], _, v => pure v
+  | y :: r, i, v => do
+    let x ← idx v.b i
+    bvOrLoopUnchecked r (i + 1) { v with b := v.b.set i (x ||| y) }
+
+/-- … and a byte-wise merge without the check indexes past the stored bytes when the peer's vector is
+    LONGER than the stored one (stored `{0x0f,0x00}`, then `{0xff,0x07,0x01}`: index out of range [2]
+    with length 2 — in the worker goroutine, so the process would die). -/
+theorem C37_mergeUnchecked_longer_counterexample :
+    bvOrLoopUnchecked [255, 7, 1] 0 ⟨11, [15, 0]⟩ = .error .outOfRange := by rfl
 
 /-- Before fix 89b64e8: presence bytes shorter than the file's chunk count left a nil vector that the
     next statement dereferenced (in the worker goroutine: the process died). -/
@@ -570,6 +609,13 @@ example : CiWF ⟨[([1], 9)], [(([1], [2]), some ⟨9, [255, 1]⟩)], [], []⟩ 
   simp only [List.mem_singleton] at he
   subst he
   exact ⟨⟨9, [255, 1]⟩, 9, rfl, by simp [List.lookup], by omega, rfl, by simp⟩
+
+/-- the stored-vector clauses are about existing states: a stored 9-bit vector of 2 bytes, then equal /
+    longer / shorter / empty presence bytes -/
+example : ∃ cur, (⟨[([1], 9)], [(([1], [2]), some ⟨9, [255, 1]⟩)], [], []⟩ : CiState).disc.lookup ([1], [2]) = some (some cur) ∧
+    ([0, 1] : Bytes).length = cur.b.length ∧ ([0, 1, 2] : Bytes).length ≠ cur.b.length ∧
+    ([7] : Bytes).length ≠ cur.b.length ∧ ([] : Bytes).length ≠ cur.b.length :=
+  ⟨⟨9, [255, 1]⟩, by decide, by decide, by decide, by decide, by decide⟩
 
 example : TrWF ⟨[], [], [⟨[1], some 5, some ⟨[], [], some 5, none⟩⟩]⟩ := by
   intro p hp
